@@ -370,6 +370,19 @@ pub fn run(tier: Tier, seed: u64) -> i32 {
         let s = session(&format!("s{i}"), u, p, seed + (i / specs.len()) as u64 * 1000);
         total += run_plan(&s, 1, &report);
     }
+    // sessions whose shared secret S has a rare byte shape (leading zero bytes, 00 xx 00 ...): the interleaved key is
+    // taken over a shortened S there, and the proofs each side must accept are the ones the definition gives
+    {
+        let ws = crate::logins::load_witnesses();
+        let mut n_w = 0u64;
+        for (class, case) in ws.iter().filter(|(c, _)| c.starts_with("S-")) {
+            let s = session_from(&format!("witness-{class}"), &case.reg_user, &case.reg_pass, case.salt, case.b, case.a);
+            total += run_plan(&s, if n_w < tier.pick(3, 100) { 1 } else { 0 }, &report);
+            n_w += 1;
+        }
+        report.count("sessions_from_rare_S_shape_witnesses", n_w);
+        report.require("sessions_from_rare_S_shape_witnesses");
+    }
     // deviation bound 2: all pairs of alterations at different points
     let n_b2 = tier.pick(1usize, 4usize);
     for i in 0..n_b2 {
@@ -396,7 +409,7 @@ pub fn run(tier: Tier, seed: u64) -> i32 {
     // (blank runs collapsed, blanks trimmed or dropped, a character doubled or dropped, user and password swapped);
     // whatever the reference normalisation keeps apart is "another password or username" and must be refused
     {
-        let regs: Vec<(&str, &str)> = vec![("alice", "open sesame"), ("a  b", "c  d"), (" x", "y "), ("bob", "pass  word 1"), ("A", "A"), ("q", "qq"), ("user name", "  "), ("dot.", ".dot"), ("0", "00")];
+        let regs: Vec<(&str, &str)> = vec![("alice", "open sesame"), ("a  b", "c  d"), (" x", "y "), ("bob", "pass  word 1"), ("A", "A"), ("q", "qq"), ("user name", "  "), ("dot.", ".dot"), ("0", "00"), ("gm{eu}", "pass{word"), ("a`b", "x~y|z"), ("[brackets]", "^caret@"), ("1!", "2\"3#")];
         let mut n_conf = 0u64;
         let mut n_same = 0u64;
         for (ri, (ru, rp)) in regs.iter().enumerate() {
@@ -418,6 +431,18 @@ pub fn run(tier: Tier, seed: u64) -> i32 {
                     s.replace('0', ""),
                     s.to_ascii_uppercase(),
                 ];
+                // one character replaced by the one that differs in the ASCII case bit (0x20) or in the lowest bit:
+                // upper-casing by bit tricks folds '{' onto '[', '~' onto '^', '`' onto '@', '1' onto a control character
+                for (i, b) in s.bytes().enumerate() {
+                    for m in [0x20u8, 0x01] {
+                        let c = b ^ m;
+                        if (0x20..=0x7E).contains(&c) {
+                            let mut t = s.as_bytes().to_vec();
+                            t[i] = c;
+                            v.push(String::from_utf8(t).unwrap());
+                        }
+                    }
+                }
                 v.retain(|x| !x.is_empty() && x.len() <= 16);
                 v.sort();
                 v.dedup();
